@@ -11,12 +11,12 @@ Definition lx_opts (mn mx : Z) : fopts := mkOpts mn mx tolf 0 true ERaise true.
 Definition lx_opts_off (off : Z) : fopts := mkOpts 0 6 tolf off true ERaise true.
 
 (* A: V0 is the check variable, V1 an endogenous variable no script writes (10, 11, 12 over the three periods);
-   B: one check variable, LAGS 1, LEADS 2; the linker's own core: one check variable L0 *)
+   B: one check variable, LAGS 1, LEADS 1; the linker's own core: one check variable L0 *)
 Definition lx_dA : mdesc := mkDesc [0%nat] [0%nat; 1%nat] 0 0.
 Definition lx_mA : fstate := mkState [[0%float; 0%float; 0%float]; [10%float; 11%float; 12%float]] U3 [-1; -1; -1] [].
 Definition lx_A : fcomp := mkComp lx_dA lx_mA.
-Definition lx_B : fcomp := mkComp (mkDesc [0%nat] [0%nat] 1 2) (mkState [[0%float; 0%float; 0%float]] U3 [-1; -1; -1] []).
-Definition lx_core : fcomp := mkComp (mkDesc [0%nat] [0%nat] 0 0) (mkState [[0%float; 0%float; 0%float]] U3 [-1; -1; -1] []).
+Definition lx_B : fcomp := mkComp (mkDesc [0%nat] [0%nat] 1 1) (mkState [[0%float; 0%float; 0%float]] U3 [-1; -1; -1] []).
+Definition lx_core : fcomp := mkComp (mkDesc [0%nat] [0%nat] 1 1) (mkState [[0%float; 0%float; 0%float]] U3 [-1; -1; -1] []).
 Definition lx_state : flstate := mkL lx_core [(0%nat, lx_A); (1%nat, lx_B)] [].
 
 Definition lx_scA : scripts :=
@@ -77,10 +77,16 @@ Example lx_maxiter0 :
   l_log (fst r) = [LPre 1].
 Proof. vm_compute. repeat split. Qed.
 
-(* min_iter > max_iter: no ValueError from solve_t; 2 iterations, 'F' *)
+(* min_iter > max_iter (after fix 97423a0): ValueError, nothing changed *)
 Example lx_min_gt_max :
-  let r := lx_run None (mkOpts 3 2 tolf 0 false ERaise true) in
-  snd r = LRet false /\ status (c_st (l_core (fst r))) = [Unsolved; Failed; Unsolved] /\ iters (c_st (l_core (fst r))) = [-1; 2; -1].
+  lx_run None (mkOpts 3 2 tolf 0 false ERaise true) = (lx_state, LRaise (LExn ValueError)).
+Proof. vm_compute. reflexivity. Qed.
+(* a period without room for the linker's lags (1) / leads (1) (after fix a0fbb5c): IndexError, nothing changed — even
+   with an unknown id in the selection and min_iter = max_iter *)
+Example lx_infeasible_period :
+  f_linker_solve_t lx_ss lx_hs None (lx_opts 0 6) 0 lx_state = (lx_state, LRaise (LExn IndexError)) /\
+  f_linker_solve_t lx_ss lx_hs (Some [7%nat]) (lx_opts 2 2) (-1) lx_state = (lx_state, LRaise (LExn IndexError)) /\
+  snd (f_linker_solve_t lx_ss lx_hs (Some [7%nat]) (lx_opts 2 2) 1 lx_state) = LRaise (LExn KeyError).
 Proof. vm_compute. repeat split. Qed.
 
 (* strictness (after fix 5fcbff4): a move of exactly tol is not convergence, a move just below it is *)
@@ -222,17 +228,20 @@ Proof.
   - intros i Hi. destruct i as [|[|[|[|[|[|[|i]]]]]]]; try lia; vm_compute; reflexivity.
 Qed.
 
-(* outside them the two differ — one witness per premise *)
-(* min_iter > max_iter: the model rejects the call, the linker iterates and fails the period *)
-Example lx_single_differs_min_gt_max :
-  snd (lx_mrun lx_scA lx_dA (lx_opts 3 2)) = Raise ValueError /\
-  snd (lx_lrun lx_scA lx_dA (lx_opts 3 2)) = LRaise (LExn NonConvergenceError).
-Proof. vm_compute. split; reflexivity. Qed.
-(* a period without room for the model's lags: IndexError from the model, solved by the linker *)
-Example lx_single_differs_infeasible :
-  snd (lx_mrun lx_scA (mkDesc [0%nat] [0%nat] 2 0) (lx_opts 0 6)) = Raise IndexError /\
-  snd (lx_lrun lx_scA (mkDesc [0%nat] [0%nat] 2 0) (lx_opts 0 6)) = LRet true.
-Proof. vm_compute. split; reflexivity. Qed.
+(* the two guards (fixes 97423a0, a0fbb5c) make linker and model agree where they used to differ: *)
+(* min_iter > max_iter: ValueError from both, nothing changed *)
+Example lx_single_agrees_min_gt_max :
+  lx_mrun lx_scA lx_dA (lx_opts 3 2) = (lx_mA, Raise ValueError) /\
+  snd (lx_lrun lx_scA lx_dA (lx_opts 3 2)) = LRaise (LExn ValueError) /\
+  map snd (l_subs (fst (lx_lrun lx_scA lx_dA (lx_opts 3 2)))) = [mkComp lx_dA lx_mA].
+Proof. vm_compute. repeat split. Qed.
+(* a period without room for the model's lags: IndexError from both, nothing changed *)
+Example lx_single_agrees_infeasible :
+  lx_mrun lx_scA (mkDesc [0%nat] [0%nat] 2 0) (lx_opts 0 6) = (lx_mA, Raise IndexError) /\
+  snd (lx_lrun lx_scA (mkDesc [0%nat] [0%nat] 2 0) (lx_opts 0 6)) = LRaise (LExn IndexError) /\
+  map snd (l_subs (fst (lx_lrun lx_scA (mkDesc [0%nat] [0%nat] 2 0) (lx_opts 0 6)))) = [mkComp (mkDesc [0%nat] [0%nat] 2 0) lx_mA].
+Proof. vm_compute. repeat split. Qed.
+(* outside the remaining premises the two differ — one witness per premise *)
 (* an exception inside _evaluate: SolutionError(cause) and 'E' from the model; the bare exception, nothing stamped, from the linker *)
 Definition lx_sc_raise : scripts := [(1%nat, mkPS [] [[ASet 0 1%float]; [ARaise 12]] [])].
 Example lx_single_differs_exception :
